@@ -67,6 +67,9 @@ Theorem C35_lru_by_time : forall (c : N) (ops : list op),
 Proof. exact lru_by_time. Qed.
 Print Assumptions C35_lru_by_time.
 
+(* The generic theorem models a method as ONE critical section around its whole body (acquire,
+   body, release); that the source has this shape is the obligation C35_one_critical_section above
+   (shapes read by the translator on every run), cross-checked per method by the harness. *)
 (* ---- concurrency: with the lock modes read from the source, every complete interleaved
    history of any number of threads calling Get/Put (bodies interleaved at the granularity of
    single statements of lru_cache.go and container/list) is linearizable w.r.t. the
